@@ -8,6 +8,7 @@ import Driver.C09
 import Driver.C10
 import Driver.C11
 import Driver.C12
+import Driver.C13
 import Driver.C16
 import Driver.C17
 open Lean
@@ -23,6 +24,7 @@ def dispatch (p op : String) (c i : Json) : Except String (Json × String) :=
   | "C10" => D10.handle op c i
   | "C11" => D11.handle op c i
   | "C12" => D12.handle op c i
+  | "C13" => D13.handle op c i
   | "C16" => D16.handle op c i
   | "C17" => D17.handle op c i
   | _ => throw s!"unknown property {p}"
